@@ -39,6 +39,11 @@ def gen_cases(tier, seed):
             # one call at a time, several failures of different kinds, the run allowed to go on: "it is the first call that failed"
             d.update(W=1, perturb="none", max_errors=r.choice([None, None, 2, 5]))
             d["faults"] = {"kinds": r.choice([["exc", "base", "kbi", "sysexit", "value"], ["exc", "base"], ["value", "genexit", "falsy"]]), "count": r.randint(2, 6)}
+            if r.random() < 0.3:
+                # ... dozens of failures in one run (wide plans, most calls independent of each other): it is still the FIRST that is reported
+                d.update(n=r.randint(30, 70), family=r.choice(["disconnected", "layers", "join"]), max_errors=r.choice([None, None, 100]))
+                d["faults"] = {"kinds": r.choice([["exc"], ["exc", "value", "base"]]), "p": r.choice([0.7, 0.9, 1.0])}
+                d["many_failures"] = True
             out.append(d)
             continue
         if r.random() < 0.4:
@@ -48,6 +53,8 @@ def gen_cases(tier, seed):
         if r.random() < 0.2:
             d["retry"] = r.choice([2, 3])
             d["faults"]["flaky"] = r.random() < 0.5
+        if r.random() < 0.06:
+            d["display"] = (r.choice(["html", "html", "html_in_list", "html_and_null"]), r.choice(["bytesio_write", "returns_true", "returns_obj"]))
         out.append(d)
     for i in range(n // 8):
         # registry runs: a plan function (often the writer behind a chain of dependent sources) raises; nothing that depends on it - no
@@ -158,7 +165,19 @@ def run_case(desc):
 
     if desc.get("mode") == "registry":
         return run_registry(desc)
-    R = plainrun.execute(desc, record_args=False)
+    progress = None
+    if desc.get("display"):
+        # a bundled display whose output callable RETURNS something (a file's or buffer's write returns a byte count, a logger's a handle):
+        # whatever the display does with it, a failed call still makes run raise CallError
+        import io
+
+        import uberjob.progress as up
+
+        sink = io.BytesIO()
+        outs = {"bytesio_write": sink.write, "returns_true": lambda b: True, "returns_obj": lambda b: object()}
+        mk = {"html": lambda f: up.html_progress(f), "html_in_list": lambda f: [up.html_progress(f)], "html_and_null": lambda f: (up.html_progress(f), up.null_progress)}
+        progress = mk[desc["display"][0]](outs[desc["display"][1]])
+    R = plainrun.execute(desc, record_args=False, progress=progress)
     ir, H = R.ir, R.H
     calls = set(ir.harness_calls())
     preds = ir.preds()
@@ -213,7 +232,7 @@ def run_case(desc):
     succ = ir.succs()
     continued = len(H.events) > 0 and failed and any(s > min(last_raise_seq[c] for c in failed) and k == "start" for s, k, *_ in H.events)
     counters = {"faulted_runs": 1, "starts_checked": checked, "failed_calls": len(failed), "errors_identity_checked": int(bool(failed)),
-                "runs_continued_past_failure": int(bool(continued)), "w1_first_failure_checked": int(desc["W"] == 1 and bool(failed)),
+                "runs_continued_past_failure": int(bool(continued)), "w1_first_failure_checked": int(desc["W"] == 1 and bool(failed)), "w1_runs_with_more_than_16_failures": int(desc["W"] == 1 and len(failed) > 16),
                 "baseexception_failures": sum(1 for c in failed if isinstance(H.raised[c][-1], BaseException) and not isinstance(H.raised[c][-1], Exception))}
     sets = {}
     plainrun.perturb_stats(R, counters, sets)
